@@ -1,5 +1,6 @@
 (* Model of internal/chanmap/chanmap.go (Store) as repaired by fix F06 (deleting a parent also
-   deletes the ParentByChild entries of its children).
+   deletes the ParentByChild entries of its children) and fix F22 (deleting a parent's last child
+   deletes the parent key instead of keeping an empty map for ever).
    Parents (booking ids), children (client names) and channels are interned to N; 0 stands for the
    empty string / the nil channel.  A Go map value that is a nil map is representable:
    [children] maps a parent to [Some m] (a real map) or [None] (key present, value nil), so that
@@ -55,6 +56,12 @@ Definition do_add (s : cm) (p c ch : N) : cm * cres :=
   | _ => (mkcm ch1 (pbc s) (closedl s), RPanicNilMap)
   end.
 
+(* what deleteAndOptionalCloseChild leaves under the parent key (fix F22): nothing when the last child
+   has gone (`if len(children) == 0 { delete(s.ChildrenByParent, parent) }`, which also covers a nil or
+   missing map), otherwise the map *)
+Definition store_back (p : N) (m : childmap) (chs : alist N (option childmap)) : alist N (option childmap) :=
+  match m with [] => prm p chs | _ :: _ => pins p (Some m) chs end.
+
 (* deleteAndOptionalCloseChild *)
 Definition do_del_child (s : cm) (c : N) (close : bool) : cm * cres :=
   if (c =? 0)%N then (s, RErr) else
@@ -70,14 +77,12 @@ Definition do_del_child (s : cm) (c : N) (close : bool) : cm * cres :=
               if close then
                 match close_chan ch (closedl s) with
                 | None => (s, RPanicClose)
-                | Some cl => (mkcm (pins p (Some (mrm c m)) (children s)) (mrm c (pbc s)) cl, ROk)
+                | Some cl => (mkcm (store_back p (mrm c m) (children s)) (mrm c (pbc s)) cl, ROk)
                 end
-              else (mkcm (pins p (Some (mrm c m)) (children s)) (mrm c (pbc s)) (closedl s), ROk)
-          | None => (mkcm (pins p (Some m) (children s)) (mrm c (pbc s)) (closedl s), ROk)
+              else (mkcm (store_back p (mrm c m) (children s)) (mrm c (pbc s)) (closedl s), ROk)
+          | None => (mkcm (store_back p m (children s)) (mrm c (pbc s)) (closedl s), ROk)
           end
-      | None =>
-          (* s.ChildrenByParent[parent] = children   stores the nil map under the parent key *)
-          (mkcm (pins p None (children s)) (mrm c (pbc s)) (closedl s), ROk)
+      | None => (mkcm (prm p (children s)) (mrm c (pbc s)) (closedl s), ROk)
       end
   end.
 
@@ -137,10 +142,35 @@ Definition do_del_parent_old (s : cm) (p : N) (close : bool) : cm * cres :=
       end
   end.
 
+(* ... and the child delete before fix F22: whatever map it found (also nil) was stored back under the
+   parent key, so an empty map stayed for every past booking *)
+Definition do_del_child_old (s : cm) (c : N) (close : bool) : cm * cres :=
+  if (c =? 0)%N then (s, RErr) else
+  match mlk c (pbc s) with
+  | None => (s, ROk)
+  | Some p =>
+      match plk p (children s) with
+      | Some (Some m) =>
+          match mlk c m with
+          | Some ch =>
+              if close then
+                match close_chan ch (closedl s) with
+                | None => (s, RPanicClose)
+                | Some cl => (mkcm (pins p (Some (mrm c m)) (children s)) (mrm c (pbc s)) cl, ROk)
+                end
+              else (mkcm (pins p (Some (mrm c m)) (children s)) (mrm c (pbc s)) (closedl s), ROk)
+          | None => (mkcm (pins p (Some m) (children s)) (mrm c (pbc s)) (closedl s), ROk)
+          end
+      | _ => (mkcm (pins p None (children s)) (mrm c (pbc s)) (closedl s), ROk)
+      end
+  end.
+
 Definition cstep_old (s : cm) (o : cop) : cm * cres :=
   match o with
   | DelParent p => do_del_parent_old s p false
   | DelCloseParent p => do_del_parent_old s p true
+  | DelChild c => do_del_child_old s c false
+  | DelCloseChild c => do_del_child_old s c true
   | _ => cstep s o
   end.
 
